@@ -777,6 +777,13 @@ class StubsStringGenerator:
             literal_data = []
             other_type_data = []
             has_named_type = False
+            # Union items have to be unique. Members that are written twice ("Optional[X] | None") are dropped before the
+            # special cases below count the members
+            # (compared as written: the literal values 0 and False are different members)
+            unique_types: dict[str, dict] = {}
+            for type_information in type_data["types"]:
+                unique_types.setdefault(repr(type_information), type_information)
+            type_data["types"] = list(unique_types.values())
             for type_information in type_data["types"]:
                 if type_information["kind"] == "LiteralType":
                     literal_data.append(type_information)
